@@ -264,12 +264,14 @@ static void freq_families(bool thorough, std::vector<std::pair<str, std::vector<
     for (int i = 0; i < len; i++) { f[off + i] = (uint)std::min<uint64_t>(a, 4000000000ULL); g[off + len - 1 - i] = f[off + i]; uint64_t t = a + b; a = b; b = t;
       h[off + i] = (uint)std::min<uint64_t>(p, 4000000000ULL); k[off + len - 1 - i] = h[off + i]; p = std::min<uint64_t>(p * 2, 4000000000ULL); }
     out.push_back({fmt("fib+ off=%d len=%d", off, len), f}); out.push_back({fmt("fib- off=%d len=%d", off, len), g});
-    out.push_back({fmt("geo+ off=%d len=%d", off, len), h}); out.push_back({fmt("geo- off=%d len=%d", off, len), k});
+    // symbol counts and node weights are signed 32-bit in the coders (BinaryNode::weight is int; text lengths are uint):
+    // only vectors whose total stays below 2^31 are valid inputs
+    if (len <= 29) { out.push_back({fmt("geo+ off=%d len=%d", off, len), h}); out.push_back({fmt("geo- off=%d len=%d", off, len), k}); }
   }
   // uniform blocks
   for (int blk : {2, 16, 64, 128}) for (uint w : {2u, 1000u}) { auto f = base(); for (int i = 0; i < blk; i++) f[97 + i < 256 ? 97 + i : i] = w; out.push_back({fmt("block %d x %u", blk, w), f}); }
   // single dominant symbol
-  for (int s : {0, (int)'a', 255}) { auto f = base(); f[s] = 3000000000u; out.push_back({fmt("dominant %d", s), f}); }
+  for (int s : {0, (int)'a', 255}) { auto f = base(); f[s] = 1000000000u; out.push_back({fmt("dominant %d", s), f}); }
 }
 static void check_code(const str &name, const str &fam, Codeword *cw, bool ordered, long &checks) {
   // prefix-free + complete (Kraft sum == 1) + (Hu-Tucker) order preserved, on left-aligned 64-bit strings
@@ -292,21 +294,21 @@ static void check_code(const str &name, const str &fam, Codeword *cw, bool order
     if ((v[a].first >> (64 - mb)) == (v[b].first >> (64 - mb))) { kfail(name, "codewords", "not_prefix_free", fmt("codes of %d and %d (%s)", a, b, fam.c_str()), fam); break; } }
   if (ordered) for (int i = 0; i + 1 < 256; i++) { checks++; if (!(v[i].first < v[i + 1].first)) { kfail(name, "codewords", "order_not_preserved", fmt("code(%d) >= code(%d) as bit strings (%s)", i, i + 1, fam.c_str()), fam); break; } }
 }
-static void c18_codes(bool thorough, int shard, int nshards) {
+static void c18_codes(bool thorough, int shard, int nshards, long start) {
   std::vector<std::pair<str, std::vector<uint>>> fams; freq_families(thorough, fams);
   long cases = 0, checks = 0;
   for (size_t i = 0; i < fams.size(); i++) {
-    if ((int)(i % nshards) != shard) continue;
+    if ((int)(i % nshards) != shard || (long)i < start) continue;
+    PG->sub = (int)i;
     if (!ONLY.empty() && fams[i].first != ONLY) continue;
     pg_op("HuTucker", fams[i].first);
     { std::vector<uint> f = fams[i].second; HuTucker *ht = new HuTucker(f.data()); Codeword *cw = ht->obtainCodewords(); check_code("HuTucker", fams[i].first, cw, true, checks); delete[] cw; delete ht; }
     pg_op("Huffman", fams[i].first);
     { std::vector<uint> f = fams[i].second; Huffman *hf = new Huffman(f.data()); Codeword *cw = hf->obtainCodewords(); check_code("Huffman", fams[i].first, cw, false, checks); delete[] cw; delete hf; }
-    cases += 2;
+    cases += 2; kstat(2, checks); checks = 0;
     if (cases <= 4) ksample(fmt("{\"component\":\"HuTucker+Huffman\",\"frequency_family\":\"%s\"}", fams[i].first.c_str()));
     asan_flush("codes", fams[i].first);
   }
-  kstat(cases, checks);
 }
 
 // ------------------------------------------------------------------ C19: bit sequences
@@ -568,7 +570,7 @@ int main(int argc, char **argv) {
   } else if (part == "dacvls") {
     std::vector<uint> widths = {2, 8, 9, 17};
     for (size_t i = 0; i < widths.size(); i++) if ((int)(i % sn) == si) { uint w = widths[i]; in_child("DAC_VLS", [=]() { c17_dac_vls(w, th ? 4 : 3, th ? 3 : 2); }, 600); }
-  } else if (part == "codes") { in_child("codes", [=]() { c18_codes(th, si, sn); }, 600);
+  } else if (part == "codes") { in_child_resumable("codes", [=](long st) { c18_codes(th, si, sn, st); }, 600);
   } else if (part == "bits") { in_child_resumable("BitSequence", [=](long st) { c19_bits(th, si, sn, st); }, 3000);
   } else if (part == "wt") { in_child_resumable("WaveletTree", [=](long st) { c19_wt(th, si, sn, st); }, 3000);
   } else if (part == "repair") { in_child_resumable("RePair", [=](long st) { c20_repair(th, si, sn, st); }, 3000);
